@@ -1,5 +1,760 @@
-use crate::Ctx;
+//! C17 – unblock releases exactly one receiver; timed / non-blocking receives keep bounds.
+//! Four sub-workloads on the real server:
+//!   A  c receivers blocked in recv, u <= c unblocks from several threads, p requests interleaved
+//!   B  tokens and requests queued in a known order before a single receiver runs a seeded mix
+//!      of the four receive calls; the results must equal a FIFO reference model
+//!   C  free race of unblock / requests / mixed receivers, then quiescence: no token may stay
+//!      queued while a receiver is blocked; b further unblocks release exactly the b receivers
+//!   T  timing: empty-handed recv_timeout(T) returns within [T - 1.5 ms, 2T + slack], with
+//!      stolen wake-ups; try_recv never blocks
 
-pub fn run(_ctx: &Ctx) {
-    unimplemented!()
+use crate::alloc::lib;
+use crate::env::Env;
+use crate::net::Client;
+use crate::p07::{receiver_loop, wind_down, Leave, Op, RecvScript, Shared};
+use crate::report::Violation;
+use crate::util::{now_ns, sleep_us, spawn_named, CalWindow, Rng, J};
+use crate::Ctx;
+use std::sync::atomic::{AtomicBool, AtomicU64, AtomicUsize, Ordering};
+use std::sync::{Arc, Mutex};
+use std::time::{Duration, Instant};
+use tiny_http::{Response, Server};
+
+fn new_shared(n: usize) -> Arc<Shared> {
+    Arc::new(Shared {
+        delivered: Mutex::new(Vec::new()),
+        log: Mutex::new(Vec::new()),
+        stop: AtomicBool::new(false),
+        alive: AtomicUsize::new(n),
+        in_recv: AtomicUsize::new(0),
+        empty_returns: AtomicUsize::new(0),
+        unblocked_returns: AtomicUsize::new(0),
+        foreign: AtomicUsize::new(0),
+        exit_on_unblock: AtomicBool::new(false),
+    })
+}
+
+fn log_tail(sh: &Shared, n: usize) -> J {
+    let l = sh.log.lock().unwrap();
+    let from = l.len().saturating_sub(n);
+    J::A(l[from..].iter().map(|e| J::s(format!("{:>9} us {:>4} {}", e.t_ns / 1000, e.who, e.what))).collect())
+}
+
+fn wait_for(timeout: Duration, mut f: impl FnMut() -> bool) -> bool {
+    let t = Instant::now();
+    loop {
+        if f() {
+            return true;
+        }
+        if t.elapsed() > timeout {
+            return false;
+        }
+        sleep_us(200);
+    }
+}
+
+fn violation(ctx: &Ctx, sig: &str, what: String, detail: J, cs: u64, mode: &str) {
+    ctx.rep.violation(Violation { signature: sig.to_string(), what, detail, case_seed: cs, mode: mode.to_string() });
+}
+
+// ---------------------------------------------------------------------------------------------
+// A: blocked receivers, unblocks and requests
+
+/// A receiver for sub-workload A: recv in a loop; exits on the first Err.
+fn recv_until_unblocked(server: Arc<Server>, sh: Arc<Shared>, trial: u64, ridx: usize) {
+    let who = format!("r{}", ridx);
+    loop {
+        sh.ev_pub(&who, "call recv".into());
+        match lib(|| server.recv()) {
+            Ok(rq) => {
+                let url = rq.url().to_string();
+                if let Some((t, c, i)) = parse(&url) {
+                    if t == trial {
+                        sh.delivered.lock().unwrap().push((c, i, ridx, now_ns()));
+                        sh.ev_pub(&who, format!("got {}/{}", c, i));
+                    } else {
+                        sh.foreign.fetch_add(1, Ordering::SeqCst);
+                    }
+                }
+                let _ = lib(|| rq.respond(Response::from_string("ok")));
+            }
+            Err(_) => {
+                sh.unblocked_returns.fetch_add(1, Ordering::SeqCst);
+                sh.ev_pub(&who, "recv returned Err (unblocked)".into());
+                break;
+            }
+        }
+    }
+    sh.alive.fetch_sub(1, Ordering::SeqCst);
+}
+
+fn parse(url: &str) -> Option<(u64, usize, usize)> {
+    let mut it = url.split('/');
+    it.next()?;
+    if it.next()? != "q" {
+        return None;
+    }
+    let t = u64::from_str_radix(it.next()?, 16).ok()?;
+    let c = it.next()?.parse().ok()?;
+    let i = it.next()?.parse().ok()?;
+    Some((t, c, i))
+}
+
+fn workload_a(ctx: &Ctx, env: &Env, rng: &mut Rng, cs: u64) {
+    let rep = &ctx.rep;
+    let server = env.server.clone();
+    let trial = cs & 0xffff_ffff;
+    let c = rng.range(1, 8);
+    let u = rng.range(0, c);
+    let p = rng.range(0, 10);
+    let nthreads = rng.range(1, 3);
+    let sh = new_shared(c);
+    let mut rh = Vec::new();
+    for i in 0..c {
+        let (s, sh2) = (server.clone(), sh.clone());
+        rh.push(spawn_named(&format!("rcv{}", i), move || recv_until_unblocked(s, sh2, trial, i)));
+    }
+    let pre_block = rng.chance(2, 3);
+    if pre_block {
+        // unblock issued *while* receivers block: wait until all c are inside recv
+        wait_for(Duration::from_millis(500), || server.verif_queue_snapshot().blocked_pop == c);
+    }
+    let cal = CalWindow::open();
+    // unblock threads and a client, racing
+    let issued = Arc::new(AtomicUsize::new(0));
+    let mut th = Vec::new();
+    let per: Vec<usize> = (0..nthreads).map(|t| u / nthreads + if t < u % nthreads { 1 } else { 0 }).collect();
+    for (t, n) in per.iter().enumerate() {
+        let (s, sh2, issued, n) = (server.clone(), sh.clone(), issued.clone(), *n);
+        let gaps: Vec<u64> = (0..n).map(|_| rng.range(0, 1500) as u64).collect();
+        th.push(spawn_named(&format!("unb{}", t), move || {
+            for g in gaps {
+                sleep_us(g);
+                sh2.ev_pub("unb", "unblock()".into());
+                s.unblock();
+                issued.fetch_add(1, Ordering::SeqCst);
+            }
+        }));
+    }
+    let addr = env.addr.clone();
+    let gaps: Vec<u64> = (0..p).map(|_| rng.range(0, 1200) as u64).collect();
+    let sh3 = sh.clone();
+    let cl = spawn_named("cl", move || {
+        if p == 0 {
+            return None;
+        }
+        let mut cl = match Client::connect(&addr) {
+            Ok(c) => c,
+            Err(_) => return None,
+        };
+        for (i, g) in gaps.iter().enumerate() {
+            sleep_us(*g);
+            sh3.ev_pub("c0", format!("send 0/{}", i));
+            cl.send(format!("GET /q/{:x}/0/{} HTTP/1.1\r\nHost: h\r\n\r\n", trial, i).as_bytes());
+        }
+        // the connection stays open until the end of the trial; responses are not awaited here
+        Some(cl)
+    });
+    for h in th {
+        let _ = h.join();
+    }
+    // if u == c every receiver is gone and requests may legitimately stay queued
+    let expect_all_delivered = u < c;
+    let client_keepalive = cl.join().ok().flatten();
+    let ok = wait_for(Duration::from_millis(1500), || {
+        sh.unblocked_returns.load(Ordering::SeqCst) >= u && (!expect_all_delivered || sh.delivered.lock().unwrap().len() >= p)
+    });
+    sleep_us(5000);
+    let released = sh.unblocked_returns.load(Ordering::SeqCst);
+    let del = sh.delivered.lock().unwrap().clone();
+    let snap = server.verif_queue_snapshot();
+    let healthy = cal.healthy(Duration::from_millis(150));
+    let detail = || {
+        J::obj()
+            .set("receivers_blocked_in_recv", J::u(c))
+            .set("unblock_calls", J::u(u))
+            .set("unblock_threads", J::u(nthreads))
+            .set("requests", J::u(p))
+            .set("receivers_released", J::u(released))
+            .set("requests_delivered", J::u(del.len()))
+            .set("snapshot", J::s(format!("{:?}", snap)))
+            .set("history_tail", log_tail(&sh, 100))
+    };
+    let mut verdict: Option<(&str, String)> = None;
+    if released > u {
+        verdict = Some(("C17/A/more-receivers-released-than-unblocks", format!("{} unblock calls released {} receivers", u, released)));
+    } else if released < u {
+        if !ok && !healthy {
+            rep.inconclusive("A: receivers not released in time, calibrator unhealthy");
+            wind_down(&server, &sh, rh);
+            return;
+        }
+        // a token is queued (or lost) while receivers remain blocked
+        verdict = Some((
+            "C17/A/fewer-receivers-released-than-unblocks",
+            format!("{} unblock calls released only {} of {} blocked receivers (tokens still queued: {})", u, released, c, snap.tokens),
+        ));
+    } else {
+        let mut seen = std::collections::HashSet::new();
+        for d in &del {
+            if !seen.insert((d.0, d.1)) {
+                verdict = Some(("C17/A/request-duplicated", format!("request {}/{} delivered twice", d.0, d.1)));
+            }
+        }
+        if verdict.is_none() && expect_all_delivered && del.len() != p {
+            if healthy {
+                verdict = Some(("C17/A/request-discarded", format!("{} of {} requests delivered although {} receivers remained", del.len(), p, c - u)));
+            } else {
+                rep.inconclusive("A: requests missing, calibrator unhealthy");
+                wind_down(&server, &sh, rh);
+                return;
+            }
+        }
+        if verdict.is_none() {
+            // one receiver per connection order is not guaranteed with several receivers; with a
+            // single remaining consumer it is
+            if c - u == 1 && u == 0 {
+                let idxs: Vec<usize> = del.iter().map(|d| d.1).collect();
+                if idxs.windows(2).any(|w| w[0] >= w[1]) {
+                    verdict = Some(("C17/A/request-reordered", format!("single receiver saw requests in order {:?}", idxs)));
+                }
+            }
+        }
+    }
+    rep.inc("workload:A");
+    rep.counts.add("A_unblocks_issued", u as u64);
+    rep.counts.add("A_receivers_released", released as u64);
+    rep.eval(Some(&format!("A|c{}|u{}|p{}|t{}|pre{}", c, u, p.min(3), nthreads, pre_block)));
+    if let Some((sig, what)) = verdict {
+        violation(ctx, sig, what, detail(), cs, "A");
+    } else if rep.want_sample() && cs % 13 == 0 {
+        rep.sample(|| detail().set("workload", J::s("A")));
+    }
+    wind_down(&server, &sh, rh);
+    drop(client_keepalive);
+}
+
+// ---------------------------------------------------------------------------------------------
+// B: known queue contents, sequential calls, FIFO reference model
+
+fn workload_b(ctx: &Ctx, env: &Env, rng: &mut Rng, cs: u64) {
+    let rep = &ctx.rep;
+    let server = env.server.clone();
+    let trial = cs & 0xffff_ffff;
+    let n = rng.range(1, 8);
+    // queue contents: true = token, false = request
+    let items: Vec<bool> = (0..n).map(|_| rng.chance(1, 2)).collect();
+    let nreq = items.iter().filter(|t| !**t).count();
+    let mut cl = match Client::connect(&env.addr) {
+        Ok(c) => c,
+        Err(e) => {
+            rep.inconclusive(&format!("connect: {}", e));
+            return;
+        }
+    };
+    let base = server.verif_queue_snapshot();
+    if base.elems != 0 || base.tokens != 0 {
+        rep.inconclusive("B: queue not empty at start");
+        return;
+    }
+    let mut k = 0usize;
+    let mut pushes = base.pushes;
+    for t in &items {
+        if *t {
+            server.unblock();
+        } else {
+            cl.send(format!("GET /q/{:x}/0/{} HTTP/1.1\r\nHost: h\r\n\r\n", trial, k).as_bytes());
+            k += 1;
+            pushes += 1;
+            if !wait_for(Duration::from_millis(1500), || server.verif_queue_snapshot().pushes >= pushes) {
+                rep.inconclusive("B: request did not reach the queue");
+                return;
+            }
+        }
+    }
+    // reference model
+    let mut model: std::collections::VecDeque<Option<usize>> = {
+        let mut q = std::collections::VecDeque::new();
+        let mut i = 0;
+        for t in &items {
+            if *t {
+                q.push_back(None);
+            } else {
+                q.push_back(Some(i));
+                i += 1;
+            }
+        }
+        q
+    };
+    let mut calls = Vec::new();
+    let mut verdict: Option<(String, String)> = None;
+    let ncalls = n + rng.range(0, 3);
+    for ci in 0..ncalls {
+        // recv / iterator only when the model says it will not block
+        let op = loop {
+            let o = match rng.below(4) {
+                0 => Op::Recv,
+                1 => Op::IterNext,
+                2 => Op::TryRecv,
+                _ => Op::RecvTimeout(*rng.pick(&[0u64, 300, 1000, 3000])),
+            };
+            if model.is_empty() && matches!(o, Op::Recv | Op::IterNext) {
+                continue;
+            }
+            break o;
+        };
+        let t0 = Instant::now();
+        let r: Result<Option<tiny_http::Request>, ()> = match &op {
+            Op::Recv => lib(|| server.recv()).map(Some).map_err(|_| ()),
+            Op::IterNext => match lib(|| server.incoming_requests().next()) {
+                Some(rq) => Ok(Some(rq)),
+                None => Err(()),
+            },
+            Op::RecvTimeout(us) => lib(|| server.recv_timeout(Duration::from_micros(*us))).map_err(|_| ()),
+            Op::TryRecv => lib(|| server.try_recv()).map_err(|_| ()),
+        };
+        let el = t0.elapsed();
+        let exp = model.pop_front();
+        let got = match r {
+            Ok(Some(rq)) => {
+                let id = parse(rq.url()).map(|x| x.2);
+                let _ = lib(|| rq.respond(Response::from_string("ok")));
+                format!("request {:?}", id)
+            }
+            Ok(None) => "empty".to_string(),
+            Err(()) => "error".to_string(),
+        };
+        let want = match (&exp, &op) {
+            (Some(Some(i)), _) => format!("request {:?}", Some(*i)),
+            (Some(None), Op::Recv) | (Some(None), Op::IterNext) => "error".to_string(),
+            (Some(None), _) => "empty".to_string(),
+            (None, _) => "empty".to_string(),
+        };
+        calls.push(format!("#{} {:?} -> {} ({} us)", ci, op, got, el.as_micros()));
+        if got != want && verdict.is_none() {
+            let what_exp = match exp {
+                Some(None) => "a token at the queue head",
+                Some(Some(_)) => "a request at the queue head",
+                None => "an empty queue",
+            };
+            let sig = match (&exp, got.as_str()) {
+                (Some(None), g) if g.starts_with("request") => "C17/B/token-skipped-request-returned",
+                (Some(Some(_)), "empty") | (Some(Some(_)), "error") => "C17/B/request-not-returned",
+                (Some(Some(_)), _) => "C17/B/wrong-request-returned",
+                (None, _) => "C17/B/result-from-empty-queue",
+                _ => "C17/B/token-result-mismatch",
+            };
+            verdict = Some((sig.to_string(), format!("call #{} {:?} with {} returned {}, the FIFO model says {}", ci, op, what_exp, got, want)));
+        }
+        // a token or a queued request must be returned at once
+        if exp.is_some() && el > Duration::from_millis(400) && verdict.is_none() {
+            verdict = Some(("C17/B/slow-return".into(), format!("call #{} {:?} took {} ms although the queue was not empty", ci, op, el.as_millis())));
+        }
+    }
+    let _ = cl.await_finals(nreq.min(ncalls), &|_| false, Duration::from_millis(50));
+    // drain what the calls did not consume
+    for _ in 0..100 {
+        let s = server.verif_queue_snapshot();
+        if s.elems == 0 && s.tokens == 0 {
+            break;
+        }
+        if let Ok(Some(rq)) = server.try_recv() {
+            let _ = rq.respond(Response::from_string("drained"));
+        }
+    }
+    rep.inc("workload:B");
+    rep.eval(Some(&format!("B|{:?}|{}", items, ncalls)));
+    let detail = J::obj()
+        .set("queue_contents", J::s(format!("{:?}", items.iter().map(|t| if *t { "token" } else { "request" }).collect::<Vec<_>>())))
+        .set("calls", J::A(calls.iter().map(J::s).collect()));
+    if let Some((sig, what)) = verdict {
+        violation(ctx, &sig, what, detail, cs, "B");
+    } else if rep.want_sample() && cs % 17 == 0 {
+        rep.sample(|| detail.set("workload", J::s("B")));
+    }
+}
+
+// ---------------------------------------------------------------------------------------------
+// C: free race, then quiescence
+
+fn workload_c(ctx: &Ctx, env: &Env, rng: &mut Rng, cs: u64) {
+    let rep = &ctx.rep;
+    let server = env.server.clone();
+    let trial = cs & 0xffff_ffff;
+    let c = rng.range(2, 7);
+    let touts = [0u64, 300, 900, 2000, 5000, 20000];
+    let mut scripts = Vec::new();
+    let nblocking = rng.range(1, c);
+    for i in 0..c {
+        if i < nblocking {
+            scripts.push(RecvScript { ops: vec![if rng.chance(1, 2) { Op::Recv } else { Op::IterNext }], leave: Leave::Loop });
+        } else {
+            let ops = (0..rng.range(1, 2)).map(|_| if rng.chance(1, 4) { Op::TryRecv } else { Op::RecvTimeout(*rng.pick(&touts)) }).collect();
+            let leave = match rng.below(3) {
+                0 => Leave::Loop,
+                1 => Leave::Exit,
+                _ => Leave::SleepMs(rng.range(5, 60) as u64),
+            };
+            scripts.push(RecvScript { ops, leave });
+        }
+    }
+    let sh = new_shared(c);
+    let mut rh = Vec::new();
+    for (i, s) in scripts.iter().enumerate() {
+        let (srv, sh2, s) = (server.clone(), sh.clone(), s.clone());
+        rh.push(spawn_named(&format!("rcv{}", i), move || receiver_loop(srv, sh2, trial, i, s)));
+    }
+    let cal = CalWindow::open();
+    let u = rng.range(1, 6);
+    let p = rng.range(0, 12);
+    let s2 = server.clone();
+    let sh2 = sh.clone();
+    let ugaps: Vec<u64> = (0..u).map(|_| rng.range(0, 6000) as u64).collect();
+    let ut = spawn_named("unb", move || {
+        for g in ugaps {
+            sleep_us(g);
+            sh2.ev_pub("unb", "unblock()".into());
+            s2.unblock();
+        }
+    });
+    let addr = env.addr.clone();
+    let gaps: Vec<u64> = (0..p).map(|_| rng.range(0, 5000) as u64).collect();
+    let sh3 = sh.clone();
+    let ct = spawn_named("cl", move || {
+        if p == 0 {
+            return None;
+        }
+        if let Ok(mut cl) = Client::connect(&addr) {
+            for (i, g) in gaps.iter().enumerate() {
+                sleep_us(*g);
+                sh3.ev_pub("c0", format!("send 0/{}", i));
+                cl.send(format!("GET /q/{:x}/0/{} HTTP/1.1\r\nHost: h\r\n\r\n", trial, i).as_bytes());
+            }
+            return Some(cl);
+        }
+        None
+    });
+    let _ = ut.join();
+    let client_keepalive = ct.join().ok().flatten();
+    // let the last request reach the queue
+    sleep_us(1500);
+    // quiescence: nothing is being pushed any more. A token (or request) queued while a receiver
+    // is blocked in recv must not persist.
+    let mut verdict: Option<(String, String)> = None;
+    let t0 = Instant::now();
+    let mut stuck_since: Option<Instant> = None;
+    loop {
+        let s = server.verif_queue_snapshot();
+        let stuck = (s.tokens >= 1 || s.elems >= 1) && s.blocked_pop >= 1;
+        if !stuck {
+            if s.blocked_pop_timeout == 0 || t0.elapsed() > Duration::from_millis(60) {
+                break;
+            }
+        } else {
+            let since = *stuck_since.get_or_insert_with(Instant::now);
+            if since.elapsed() > Duration::from_millis(300) {
+                if !cal.healthy(Duration::from_millis(150)) {
+                    rep.inconclusive("C: stuck state but calibrator unhealthy");
+                    wind_down(&server, &sh, rh);
+                    return;
+                }
+                let before = sh.unblocked_returns.load(Ordering::SeqCst) + sh.delivered.lock().unwrap().len();
+                sh.ev_pub("mon", format!("stuck {:?} -> kick unblock()", s));
+                server.unblock();
+                let moved = wait_for(Duration::from_millis(150), || {
+                    sh.unblocked_returns.load(Ordering::SeqCst) + sh.delivered.lock().unwrap().len() > before
+                });
+                if moved {
+                    verdict = Some((
+                        if s.tokens >= 1 { "C17/C/token-queued-while-receiver-blocked".into() } else { "C17/C/request-queued-while-receiver-blocked".into() },
+                        format!(
+                            "{} token(s) and {} request(s) stayed queued for 300 ms while {} receiver(s) were blocked in recv(); a further unblock() got things moving",
+                            s.tokens, s.elems, s.blocked_pop
+                        ),
+                    ));
+                } else {
+                    rep.inconclusive("C: stuck state did not resolve after the kick");
+                    wind_down(&server, &sh, rh);
+                    return;
+                }
+                break;
+            }
+        }
+        if t0.elapsed() > Duration::from_secs(5) {
+            break;
+        }
+        sleep_us(500);
+    }
+    // exactly b further unblocks release exactly the b receivers still blocked in recv
+    if verdict.is_none() {
+        // wait for timed receivers to settle, then count
+        sleep_us(3000);
+        let s = server.verif_queue_snapshot();
+        let b = s.blocked_pop;
+        let timed_alive = s.blocked_pop_timeout;
+        if s.tokens == 0 && timed_alive == 0 && b >= 1 {
+            // stop non-blocking receivers from interfering: they notice `stop` themselves only at
+            // wind-down; here only receivers blocked in recv and sleeping ones exist. Sleeping
+            // ones could wake up and take a token with a timed call, so this step is done only
+            // when every non-blocking receiver has exited.
+            let nonblocking_alive = sh.alive.load(Ordering::SeqCst) - b;
+            if nonblocking_alive == 0 {
+                let before = sh.unblocked_returns.load(Ordering::SeqCst);
+                sh.exit_on_unblock.store(true, Ordering::SeqCst);
+                for _ in 0..b {
+                    server.unblock();
+                }
+                let ok = wait_for(Duration::from_millis(1500), || sh.unblocked_returns.load(Ordering::SeqCst) >= before + b);
+                sleep_us(3000);
+                let after = sh.unblocked_returns.load(Ordering::SeqCst);
+                let s2 = server.verif_queue_snapshot();
+                rep.inc("C_final_release_checked");
+                if after - before != b || s2.blocked_pop != 0 {
+                    if !ok && !cal.healthy(Duration::from_millis(150)) {
+                        rep.inconclusive("C: final release slow, calibrator unhealthy");
+                    } else {
+                        verdict = Some((
+                            "C17/C/final-release-count".into(),
+                            format!("{} unblock calls for {} blocked receivers produced {} error returns, {} still blocked", b, b, after - before, s2.blocked_pop),
+                        ));
+                    }
+                }
+            }
+        }
+    }
+    let del = sh.delivered.lock().unwrap().clone();
+    if verdict.is_none() {
+        let mut seen = std::collections::HashSet::new();
+        for d in &del {
+            if !seen.insert((d.0, d.1)) {
+                verdict = Some(("C17/C/request-duplicated".into(), format!("request {}/{} delivered twice", d.0, d.1)));
+            }
+        }
+    }
+    rep.inc("workload:C");
+    rep.eval(Some(&format!("C|c{}|nb{}|u{}|p{}|{:?}", c, nblocking, u, p.min(3), scripts.iter().map(|s| format!("{:?}", s.ops)).collect::<Vec<_>>())));
+    let detail = J::obj()
+        .set("receivers", J::A(scripts.iter().map(|r| J::s(format!("{:?} then {:?}", r.ops, r.leave))).collect()))
+        .set("unblocks", J::u(u))
+        .set("requests", J::u(p))
+        .set("history_tail", log_tail(&sh, 120));
+    if let Some((sig, what)) = verdict {
+        violation(ctx, &sig, what, detail, cs, "C");
+    } else if rep.want_sample() && cs % 19 == 0 {
+        rep.sample(|| detail.set("workload", J::s("C")));
+    }
+    wind_down(&server, &sh, rh);
+    drop(client_keepalive);
+}
+
+// ---------------------------------------------------------------------------------------------
+// T: timing
+
+fn workload_t(ctx: &Ctx, env: &Env, rng: &mut Rng, cs: u64) {
+    let rep = &ctx.rep;
+    let server = env.server.clone();
+    let trial = cs & 0xffff_ffff;
+    let t_ms = *rng.pick(&[1u64, 5, 20, 100]);
+    let ntimed = rng.range(1, 6);
+    let with_traffic = rng.chance(2, 3);
+    let nspin = if with_traffic { rng.range(1, 2) } else { 0 };
+    let stop = Arc::new(AtomicBool::new(false));
+    let samples: Arc<Mutex<Vec<(u64, bool)>>> = Arc::new(Mutex::new(Vec::new())); // (elapsed us, got request)
+    let try_max_us = Arc::new(AtomicU64::new(0));
+    let try_calls = Arc::new(AtomicU64::new(0));
+    let in_try = Arc::new(AtomicU64::new(0)); // start time of the try_recv in flight (0 = none)
+    let cal = CalWindow::open();
+    let mut hs = Vec::new();
+    for i in 0..ntimed {
+        let (srv, stop, samples) = (server.clone(), stop.clone(), samples.clone());
+        hs.push(spawn_named(&format!("tr{}", i), move || {
+            while !stop.load(Ordering::SeqCst) {
+                let t0 = Instant::now();
+                let r = lib(|| srv.recv_timeout(Duration::from_millis(t_ms)));
+                let el = t0.elapsed().as_micros() as u64;
+                match r {
+                    Ok(Some(rq)) => {
+                        let _ = lib(|| rq.respond(Response::from_string("ok")));
+                        samples.lock().unwrap().push((el, true));
+                    }
+                    Ok(None) => samples.lock().unwrap().push((el, false)),
+                    Err(_) => {}
+                }
+            }
+        }));
+    }
+    for i in 0..nspin {
+        let (srv, stop, mx, calls, in_try) = (server.clone(), stop.clone(), try_max_us.clone(), try_calls.clone(), in_try.clone());
+        hs.push(spawn_named(&format!("sp{}", i), move || {
+            while !stop.load(Ordering::SeqCst) {
+                let t0 = Instant::now();
+                in_try.store(now_ns().max(1), Ordering::SeqCst);
+                let r = lib(|| srv.try_recv());
+                in_try.store(0, Ordering::SeqCst);
+                mx.fetch_max(t0.elapsed().as_micros() as u64, Ordering::Relaxed);
+                calls.fetch_add(1, Ordering::Relaxed);
+                if let Ok(Some(rq)) = r {
+                    let _ = lib(|| rq.respond(Response::from_string("ok")));
+                }
+                std::hint::spin_loop();
+            }
+        }));
+    }
+    let dur = Duration::from_millis((t_ms * 6).clamp(40, 400));
+    let t0 = Instant::now();
+    let mut sent = 0usize;
+    let mut cl = if with_traffic { Client::connect(&env.addr).ok() } else { None };
+    let period_us = (t_ms * 1000 / 4).max(150);
+    let mut try_blocked: Option<u64> = None;
+    while t0.elapsed() < dur {
+        if let Some(c) = cl.as_mut() {
+            c.send(format!("GET /q/{:x}/0/{} HTTP/1.1\r\nHost: h\r\n\r\n", trial, sent).as_bytes());
+            sent += 1;
+        }
+        sleep_us(period_us + rng.below(200) as u64);
+        let st = in_try.load(Ordering::SeqCst);
+        if st != 0 && now_ns().saturating_sub(st) > 1_000_000_000 {
+            try_blocked = Some(now_ns() - st);
+            break;
+        }
+    }
+    stop.store(true, Ordering::SeqCst);
+    if try_blocked.is_some() {
+        // release whatever is stuck
+        for _ in 0..8 {
+            server.unblock();
+        }
+    }
+    for h in hs {
+        let _ = h.join();
+    }
+    if let Some(c) = cl.as_mut() {
+        let _ = c.await_finals(sent, &|_| false, Duration::from_millis(300));
+    }
+    for _ in 0..1000 {
+        let s = server.verif_queue_snapshot();
+        if s.elems == 0 && s.tokens == 0 {
+            break;
+        }
+        if let Ok(Some(rq)) = server.try_recv() {
+            let _ = rq.respond(Response::from_string("drained"));
+        }
+    }
+    let (over, _) = cal.read();
+    let over_us = over.as_micros() as u64;
+    let t_us = t_ms * 1000;
+    let lower = t_us.saturating_sub(1500);
+    let upper = 2 * t_us + 10 * over_us + 20_000;
+    let samples = samples.lock().unwrap().clone();
+    let empties: Vec<u64> = samples.iter().filter(|s| !s.1).map(|s| s.0).collect();
+    rep.inc("workload:T");
+    rep.counts.add("T_empty_handed_timed_receives", empties.len() as u64);
+    rep.counts.add("T_timed_receives_with_request", samples.iter().filter(|s| s.1).count() as u64);
+    rep.counts.add("T_try_recv_calls", try_calls.load(Ordering::Relaxed));
+    // elapsed > 1.25 T means the receiver saw at least one wake-up that gave it nothing
+    rep.counts.add("T_empty_receives_with_stolen_wakeup", empties.iter().filter(|e| **e > t_us + t_us / 4).count() as u64);
+    rep.eval(Some(&format!("T|{}ms|n{}|traffic{}|spin{}", t_ms, ntimed, with_traffic, nspin)));
+    let detail = |bad: Option<u64>| {
+        J::obj()
+            .set("timeout_ms", J::I(t_ms as i64))
+            .set("timed_receivers", J::u(ntimed))
+            .set("try_recv_spinners", J::u(nspin))
+            .set("requests_pushed", J::u(sent))
+            .set("calibrator_overshoot_us", J::I(over_us as i64))
+            .set("bounds_us", J::s(format!("[{}, {}]", lower, upper)))
+            .set("offending_elapsed_us", bad.map(|b| J::I(b as i64)).unwrap_or(J::Null))
+            .set("empty_handed_elapsed_us", J::A(empties.iter().take(60).map(|e| J::I(*e as i64)).collect()))
+    };
+    if let Some(ns) = try_blocked {
+        if cal.healthy(Duration::from_millis(150)) {
+            violation(ctx, "C17/T/try_recv-blocked", format!("try_recv did not return for {} ms", ns / 1_000_000), detail(None), cs, "T");
+        } else {
+            rep.inconclusive("T: try_recv slow, calibrator unhealthy");
+        }
+        return;
+    }
+    if let Some(e) = empties.iter().find(|e| **e < lower) {
+        if t_ms >= 5 {
+            violation(
+                ctx,
+                "C17/T/timed-receive-returned-early",
+                format!("recv_timeout({} ms) returned empty-handed after {} us", t_ms, e),
+                detail(Some(*e)),
+                cs,
+                "T",
+            );
+            return;
+        }
+    }
+    if let Some(e) = empties.iter().find(|e| **e > upper) {
+        if over_us < 20_000 && cal.healthy(Duration::from_millis(50)) {
+            violation(
+                ctx,
+                "C17/T/timed-receive-returned-late",
+                format!("recv_timeout({} ms) returned empty-handed after {} us (> 2T + slack)", t_ms, e),
+                detail(Some(*e)),
+                cs,
+                "T",
+            );
+            return;
+        } else {
+            rep.inconclusive("T: late sample on an unhealthy machine");
+        }
+    }
+    let tm = try_max_us.load(Ordering::Relaxed);
+    rep.counts.max("T_try_recv_max_us", tm);
+    if rep.want_sample() && cs % 23 == 0 {
+        rep.sample(|| detail(None).set("workload", J::s("T")));
+    }
+}
+
+pub fn run_case(ctx: &Ctx, env: &Env, cs: u64, which: usize) {
+    let mut rng = Rng::new(cs);
+    match which {
+        0 => workload_a(ctx, env, &mut rng, cs),
+        1 => workload_b(ctx, env, &mut rng, cs),
+        2 => workload_c(ctx, env, &mut rng, cs),
+        _ => workload_t(ctx, env, &mut rng, cs),
+    }
+}
+
+pub fn run(ctx: &Ctx) {
+    crate::env::install_fp_hook();
+    if let Some((cs, mode, repeat)) = &ctx.replay {
+        let env = Env::new(false, 0);
+        let which = match mode.as_str() {
+            "A" => 0,
+            "B" => 1,
+            "C" => 2,
+            _ => 3,
+        };
+        for _ in 0..(*repeat).max(1) {
+            run_case(ctx, &env, *cs, which);
+        }
+        return;
+    }
+    let mut rng = Rng::new(ctx.seed ^ ((ctx.shard as u64) << 32) ^ 0xC17);
+    // timing workloads are kept on unpinned shards
+    let timing_shard = ctx.shard % 4 == 3;
+    let pert = if timing_shard {
+        crate::env::Perturb { cpus: crate::util::online_cpus(), spinners: 0, _spin: None, desc: "unpinned".into() }
+    } else {
+        crate::env::perturb_setup(&mut rng, ctx.shard, true)
+    };
+    let mut env = Env::new(false, 0);
+    let mut idx = 0u64;
+    while ctx.time_left() {
+        if env.cases_run >= 300 {
+            env = Env::new(false, 0);
+        }
+        let cs = ctx.case_seed(idx);
+        let which = if timing_shard { 3 } else { (idx % 3) as usize };
+        run_case(ctx, &env, cs, which);
+        env.cases_run += 1;
+        idx += 1;
+        if ctx.rep.n_violations() >= 8 {
+            break;
+        }
+    }
+    ctx.rep.set_extra("perturbation", J::s(pert.desc.clone()));
 }
